@@ -1047,6 +1047,26 @@ func c09JSONDecoder(c *Ctx) {
 			ok, why = false, "the read happens in a helper"
 		}
 	}
+	// the lexer is used as is: only its input is set. With UseMultipleErrors wrong token kinds and
+	// out-of-range numbers become non-fatal errors that Error() does not report, so foreign JSON
+	// ("[1,2,3]", "42") would decode "successfully" into a zero Result.
+	if ok {
+		eachInstr(fn, func(i ssa.Instruction) {
+			st, isSt := i.(*ssa.Store)
+			if !isSt {
+				return
+			}
+			fa, isFA := st.Addr.(*ssa.FieldAddr)
+			if !isFA || !isNamedType(fa.X.Type(), "github.com/mailru/easyjson/jlexer", "Lexer") {
+				return
+			}
+			if f := fieldName(fa.X.Type(), fa.Field); f != "Data" {
+				if cb, isC := constBool(st.Val); !(isC && !cb) {
+					ok, why = false, "the lexer's "+f+" option is set: errors it downgrades to non-fatal are not returned by Error(), so input in another shape is accepted as a (zero) record"
+				}
+			}
+		})
+	}
 	// returns jl.Error()
 	if ok {
 		okRet := false
